@@ -151,6 +151,17 @@ def applyOp (s : WState) (name : String) (fs : List (String × String)) (lineNo 
         | .ok (rk, rv, w, c) => s.commit w c ["OBS ok:" ++ Dump.mkey rk ++ "," ++ s.renderOld w rv]
         | .error e => fail e
       | none => s.note s!"line {lineNo}: bad key"
+    | "aget" =>
+      match s.w.arrGet p i with
+      | .ok (_, w) => s.commit w c ["OBS ok"]
+      | .error e => fail e
+    | "mget" =>
+      match key with
+      | some k =>
+        match s.w.mapGet p k with
+        | .ok (_, w) => s.commit w c ["OBS ok"]
+        | .error e => fail e
+      | none => s.note s!"line {lineNo}: bad key"
     | "apop" =>
       match s.w.arrPop p c with
       | .ok (es, w, c) => s.commit w c ["OBS ok:" ++ "|".intercalate (es.map (s.renderOld s.w))]
@@ -197,6 +208,7 @@ def stepLine (s : WState) (line : String) (lineNo : Nat) : WState :=
       if mine == theirs then s
       else s.note s!"line {lineNo}: FULL differs\n  model: {mine}\n  impl : {theirs}"
   | "COMMIT" :: _ => { s with pending := ["OBS ok"] }
+  | "REOPEN" :: _ => { s with w := s.w.reopen }
   | kind :: _ =>
     if kind == "OBS" || kind == "EFF" || kind == "SLB" then
       match s.pending with
